@@ -116,6 +116,22 @@ def run(ctx):
         ctx.ob("R-SIB", f, "kraus-list classifier", eqv,
                "flat iff len(p[0]) == 1 or (len(p) == 1 and len(p[0]) > 2)" if eqv else
                f"classifier {show(core)} differs from the shared rule {show(canon)}", node)
+        # the length test reads len(p[0]) as a nesting length; that is meaningful only when p[0] is a list.  For a flat list p[0] is an
+        # array and len(p[0]) its number of ROWS, so the test has to sit behind `isinstance(p[0], np.ndarray)` being False (or carry an
+        # `isinstance(p[0], list)` conjunct): [K] with a 3-row K would otherwise be split into its rows
+        from .. import flow as flw
+        guarded = None
+        if isinstance(node, (ast.If, ast.While)):
+            tx = unparse(node.test)
+            own = f"isinstance({p}[0], list)" in tx
+            hit = flw.find_stmt_of(f.node, node.test)
+            conds = [(unparse(t_), pol) for t_, pol in flw.conds(hit[1])] if hit else []
+            behind = any((f"isinstance({p}[0], np.ndarray)" in u and not pol) or (f"isinstance({p}[0], list)" in u and pol) for u, pol in conds)
+            guarded = own or behind
+        ctx.ob("R-SIB", f, "the nesting-length test is reached only when the first element is not an array", guarded,
+               "behind `not isinstance(p[0], np.ndarray)` / with `isinstance(p[0], list)`" if guarded else
+               f"`{unparse(node.test)[:70]}` (line {node.lineno}) is evaluated for flat lists too, where len({p}[0]) is the row count of the first Kraus operator: "
+               "a single operator with 3 or more rows (or exactly one row) is taken for a nested family and split into its rows", node, required=guarded is not None)
 
     # ---- apply_channel: Kraus evaluation ------------------------------------------------------
     N = Normalizer(m, ac, inline=False)
@@ -222,6 +238,10 @@ def run(ctx):
     r_live(ctx, ac, "mat")
     r_live(ctx, ac, "phi_op")
     r_effect_free(ctx, ac, ["mat", "phi_op"])
+    # the operand and the Kraus operators are independent numeric families (real operators act on complex inputs and vice versa): no
+    # buffer typed by one of them may receive the other's data
+    from ..rules import r_dtype_cross_param
+    r_dtype_cross_param(ctx, ac, params=["mat", "phi_op"])
 
     # ---- kraus_to_choi --------------------------------------------------------------------------
     kc = m.func("kraus_to_choi.kraus_to_choi")
